@@ -95,6 +95,11 @@ DescView(d) == [seq |-> d.seq, clear |-> d.clear, read |-> d.read, recv |-> d.re
 DescAnswers(rec) ==
   LET fr == SelectSeq(Frames(rec, rec.act.s), LAMBDA f : f.k = "meta" /\ f.id = rec.rid /\ "desc" \in DOMAIN f)
   IN [i \in DOMAIN fr |-> DescView(fr[i].desc)]
+\* ... and the same for {get what=sub}: per listed subscriber the user, marks, permissions, private data and deleted flag
+SubView(e) == [user |-> e.user, read |-> e.read, recv |-> e.recv, clear |-> e.clear, acs |-> e.acs, private |-> e.private, deleted |-> e.deleted]
+SubAnswers(rec) ==
+  LET fr == SelectSeq(Frames(rec, rec.act.s), LAMBDA f : f.k = "meta" /\ f.id = rec.rid /\ "sub" \in DOMAIN f)
+  IN [i \in DOMAIN fr |-> [j \in DOMAIN fr[i].sub |-> SubView(fr[i].sub[j])]]
 Undisturbed(rec) == ~rec.faultFired /\ ~rec.nested.fired /\ ~rec.afterCrash
 ReloadEquivalence(k) ==
   LET rec == Trace[k] IN
@@ -105,6 +110,7 @@ ReloadEquivalence(k) ==
           \/ StoreOf(Proj(before.st)) # StoreOf(Proj(rec.st)) \/ Proj(before.st).sess # Proj(rec.st).sess
        THEN {}
        ELSE If(DescAnswers(before) = DescAnswers(rec), "C08:DescriptionAnswerSameAfterReload")
+            \cup If(SubAnswers(before) = SubAnswers(rec), "C08:SubscriberListSameAfterReload")
 
 Check(k) ==
   LET rec == Trace[k] IN
